@@ -146,3 +146,77 @@ pub proof fn lemma_token_facts(t: MarkdownToken, seg: Seq<Seq<char>>, n: int, cs
 {}
 pub proof fn lemma_title_nocfg(a: LpS, b: LpS, t: Option<Seq<char>>)
     requires lps_eq_nocfg(a, b), ensures lps_eq_nocfg(LpS { title: t, ..a }, LpS { title: t, ..b }) {}
+// ------------------------------------------------------------------ what the statement of C06 says about md_fold
+pub open spec fn is_cmd(l: Seq<char>) -> bool { is_prefix_of(dollar(), l) }
+/// the first `$ ` line among the first k code lines of a block
+pub open spec fn first_cmd(code: Seq<(usize, String)>, k: int) -> Option<int> decreases k {
+    if k <= 0 { None } else { match first_cmd(code, k - 1) { Some(j) => Some(j), None => if is_cmd(code[k - 1].1@) { Some(k - 1) } else { None } } }
+}
+/// between two tokens nothing is pending in the LineParser
+pub open spec fn md_idle(s: LpS) -> bool { s.cmd.len() == 0 && s.exps.len() == 0 && s.start is None && !s.multi }
+pub proof fn lemma_first_cmd(code: Seq<(usize, String)>, k: int)
+    requires 0 <= k <= code.len(),
+    ensures match first_cmd(code, k) {
+        Some(j) => 0 <= j < k && is_cmd(code[j].1@) && forall|i: int| 0 <= i < j ==> !is_cmd(#[trigger] code[i].1@),
+        None => forall|i: int| 0 <= i < k ==> !is_cmd(#[trigger] code[i].1@) },
+    decreases k
+{
+    if k > 0 { lemma_first_cmd(code, k - 1); }
+}
+/// inside one block: no test case is finished, and the command collected is the one started by the first `$ ` line
+pub proof fn lemma_md_body_shape(s: LpS, code: Seq<(usize, String)>, k: int)
+    requires md_idle(s), 0 <= k <= code.len(), md_body(s, code, k) is Some,
+    ensures ({ let sk = md_body(s, code, k)->0;
+        sk.done == s.done && !sk.multi && sk.title == s.title && match first_cmd(code, k) {
+            None => sk.cmd.len() == 0 && sk.start is None,
+            Some(j) => sk.cmd.len() > 0 && sk.start == Some(code[j].0) && sk.cmd[0] == code[j].1@.skip(2) } }),
+    decreases k
+{
+    if k > 0 {
+        lemma_md_body_shape(s, code, k - 1);
+    }
+}
+pub open spec fn tok_has_cmd(t: MarkdownToken) -> bool { t is TestCodeBlock && first_cmd(code_lines_of(t), code_lines_of(t).len() as int) is Some }
+pub open spec fn test_count(toks: Seq<MarkdownToken>, k: int) -> int decreases k {
+    if k <= 0 { 0 } else { test_count(toks, k - 1) + (if tok_has_cmd(toks[k - 1]) { 1int } else { 0int }) }
+}
+/// "exactly one test case per scrut block that contains a `$` command, in document order, with the 1-based number of the `$` line":
+/// every token leaves the earlier test cases alone; a scrut block with a `$ ` line appends exactly one test case, whose line is the
+/// number recorded for the first `$ ` line plus one, whose command starts with that line (minus the marker) and whose title is the
+/// title pending at the block; every other token appends none.
+pub proof fn lemma_md_doc(toks: Seq<MarkdownToken>, k: int)
+    requires 0 <= k <= toks.len(), md_fold(toks, k) is Some,
+    ensures md_idle(md_fold(toks, k)->0.lp), md_fold(toks, k)->0.lp.done.len() == test_count(toks, k),
+        k > 0 ==> md_fold(toks, k - 1) is Some && ({
+            let p = md_fold(toks, k - 1)->0.lp; let d = md_fold(toks, k)->0.lp.done;
+            if tok_has_cmd(toks[k - 1]) {
+                let code = code_lines_of(toks[k - 1]); let j = first_cmd(code, code.len() as int)->0;
+                d.len() == p.done.len() + 1 && d.drop_last() =~= p.done && d.last().line == code[j].0 + 1
+                && d.last().title == (match p.title { Some(t) => t, None => Seq::empty() })
+                && exists|cmd: Seq<Seq<char>>| cmd.len() > 0 && cmd[0] == code[j].1@.skip(2) && d.last().expr == join_nl(cmd)
+            } else { d =~= p.done } }),
+    decreases k
+{
+    if k > 0 {
+        lemma_md_doc(toks, k - 1);
+        let sp = md_fold(toks, k - 1)->0;
+        match toks[k - 1] {
+            MarkdownToken::TestCodeBlock { language, config_lines, comment_lines, code_lines } => {
+                let code = code_lines@;
+                lemma_md_body_shape(sp.lp, code, code.len() as int);
+                let l1 = md_body(sp.lp, code, code.len() as int)->0;
+                if l1.cmd.len() > 0 { assert(l1.cmd[0] == code[first_cmd(code, code.len() as int)->0].1@.skip(2) && s_testcase(l1, last_number(code)).expr == join_nl(l1.cmd)); }
+            }
+            _ => {}
+        }
+    }
+}
+/// the number recorded for a code line is the 0-based document index of that very line (so `line` above is its 1-based number)
+pub proof fn lemma_code_line_numbers(t: MarkdownToken, seg: Seq<Seq<char>>, n: int, cs: bool, langs: Seq<Seq<char>>, j: int)
+    requires token_ok(t, seg, n, cs, langs), t is TestCodeBlock, 0 <= j < code_lines_of(t).len(),
+    ensures ({ let c = t->comment_lines@.len() as int; code_lines_of(t)[j].0 == n + 1 + c + j && code_lines_of(t)[j].1@ == seg[1 + c + j] && 1 + c + j < seg.len() - 1 }),
+{}
+/// the tokens cover the whole document, or what is left is a front matter / fence that is never closed
+pub open spec fn covers_or_unterminated(cuts: Seq<int>, ls: Seq<Seq<char>>) -> bool {
+    cuts.last() == ls.len() || unterminated(ls.skip(cuts.last()), true) || unterminated(ls.skip(cuts.last()), false)
+}
